@@ -6,7 +6,14 @@ from nqlib import run_standard
 
 RULE = ("(A) addrparse()+bmfcheck()+addrallowed() called directly: every string over {a @ . < > \" \\ : [ ] space} up to length %s; "
         "18 wrappers x 14 local parts x 50 domains (mixed case, wildcards, near-misses, IP literals incl. overflowing octets) x 4 address shapes under "
-        "13 fixed configurations; addresses of 870..905 bytes with and without localiphost replacement; random arguments under random configurations. "
+        "13 fixed configurations; addresses of 870..905 bytes with and without localiphost replacement; random arguments under random configurations; "
+        "(L) 56 letter configurations (rcpthosts exact/wildcard/mid-label, morercpthosts.cdb exact/wildcard, badmailfrom address/@domain, localiphost "
+        "all written with one character c of A..Z a..z @ [ ` {) x every probe character p of the same set x 20 address templates, 5 sessions per "
+        "configuration with c, its other case and its neighbours, and every string over {letter in both cases @ . < >} up to length %s for the "
+        "boundary letters a z A Z; (A5/S3) configurations ABASE+k whose entries are random labels over the whole alphabet in both cases (boundary "
+        "letters favoured, the characters next to the letter ranges occasionally), probed with their own entries re-cased per letter (each letter "
+        "independently / exactly one / all upper / all lower), near-missed (letter -> adjacent character or next letter, one more or one fewer "
+        "label) as direct arguments and inside sessions. "
         "(S) whole sessions through the real main()/setup()/commands()/smtp_* code: every sequence of up to %s commands (up to %s for the secondary "
         "configurations) from a 16-entry palette (HELO EHLO 4xMAIL incl. badmailfrom hits and an over-long one, 5xRCPT local/wildcard/foreign/bare/"
         "source-routed IP literal, DATA+message, RSET, a rotating state-neutral command, QUIT) with CRLF / LF / alternating line ends and read sizes "
@@ -19,7 +26,7 @@ RULE = ("(A) addrparse()+bmfcheck()+addrallowed() called directly: every string 
 
 run_standard("C08", "Nq.Props.C08", "drv_c08", "harness/c08_session.c", "qmail-smtpd",
              ["qmail.o", "timeoutread.o", "timeoutwrite.o", "rcpthosts.o", "ipme.o", "auto_qmail.o"],
-             "5 4 3 6000", "6 5 4 120000", {"quick": RULE % (5, 4, 3), "thorough": RULE % (6, 5, 4)},
+             "5 4 3 6000", "6 5 4 120000", {"quick": RULE % (5, 5, 4, 3), "thorough": RULE % (6, 6, 5, 4)},
              "Nq/SmtpSession.lean (run/sstep/addrparse/bmfcheck/rcpthostsMatch) vs qmail-smtpd.c + commands.c + rcpthosts.c + control.c + constmap.c + "
              "cdb_seek.c + ip.c + qmail-newmrh.c",
              alphabet=b"a@.<>\"\\:[] \r\nMAILRCPTDO0",
